@@ -11,6 +11,8 @@
 pub mod alloc;
 pub mod doc;
 pub mod emu;
+pub mod fault;
+pub mod icy;
 pub mod panics;
 pub mod worker;
 
